@@ -29,7 +29,7 @@ EXTRA_MODULES = {
     "C07": ["Proofs.C07", "Proofs.C07Lines", "Proofs.C07Source"],
     "C08": ["Proofs.C08", "Proofs.C08Source"],
     "C10": ["Proofs.C10", "Proofs.C10Source"],
-    "C11": ["Proofs.C11"],
+    "C11": ["Proofs.C11", "Proofs.C11Source"],
     "C12": ["Proofs.C12", "Proofs.C12Source"],
     "C14": ["Proofs.C14", "Proofs.C14Source"],
     "C18": ["Proofs.C18"],
